@@ -24,7 +24,7 @@ func hWithLeanDB(f func()) {
 
 func VerifHarness_C01_ReadsDB() { hWithDB(func() { hReads(2, 2, hPointAndRangeKinds) }) }
 
-func VerifHarness_C01_ReadsDB3_Thorough() { hWithDB(func() { hReads(3, 2, hPointAndRangeKinds) }) }
+func VerifHarness_C01_ReadsDB3_Thorough() { hWithLeanDB(func() { hReads(3, 2, hPointAndRangeKinds) }) }
 
 // hCloseReleases: closing an iterator built by DB.newIter releases the read-state reference.
 func VerifHarness_C01_IterCloseReleases() {
